@@ -32,6 +32,9 @@ impl<'a> Observer for Obs<'a> {
 
 pub struct Transitions;
 impl SubCheck for Transitions {
+    fn fuzzable(&self) -> bool {
+        true
+    }
     type Case = SysDesc;
     fn name(&self) -> &'static str {
         "transition_relation"
